@@ -50,7 +50,7 @@ PrimBase(p) ==
     [] p = "string"                 -> Str(<<"alnum">>)
     [] p = "bytes"                  -> [t |-> "bytes", v |-> <<"alnum">>]
 
-RECURSIVE Base(_), Vals(_), RecBase(_), RecVals(_), RecValsPart(_, _), RecValsPair(_, _, _)
+RECURSIVE Base(_), Vals(_), RecBase(_), RecVals(_), RecValsPart(_, _), RecValsPair(_, _, _), Other(_)
 
 Base(ty) ==
   CASE ty.k = "prim" -> PrimBase(ty.p)
@@ -83,6 +83,8 @@ RecValsPart(n, part) ==
           \cup {[t |-> "rec", v |-> SelectSeq(b.v, LAMBDA e : \E j \in Idx(fs) : fs[j].n = e.k /\ ~optional(j))]}   \* every optional/defaulted field absent
           \cup {[t |-> "rec", v |-> [i \in Idx(fs) |-> b.v[Len(fs) + 1 - i]]]}                                        \* fields supplied in reverse order
 RecVals(n) == UNION {RecValsPart(n, part) : part \in 0..Len(FieldsOf(n))}
+\* some value of the type other than its base value
+Other(ty) == CHOOSE x \in Vals(ty) : x # Base(ty) /\ (x.t \in {"arr", "map", "str", "bytes"} => x.v # <<>>)
 \* TWO positions vary at once (thorough tier): fields i and j of record n both run through their variations
 RecValsPair(n, i, j) ==
   LET fs == FieldsOf(n)
@@ -100,6 +102,9 @@ Vals(ty) ==
                          [t |-> "map", v |-> << [k |-> <<"b">>, v |-> Base(ty.e)], [k |-> <<"a">>, v |-> Base(ty.e)] >>],
                          [t |-> "map", v |-> << [k |-> <<"a">>, v |-> Base(ty.e)], [k |-> <<"b">>, v |-> Base(ty.e)] >>],
                          [t |-> "map", v |-> << [k |-> <<"a">>, v |-> Base(ty.e)], [k |-> <<"b">>, v |-> Base(ty.e)], [k |-> <<"B">>, v |-> Base(ty.e)] >>]}
+                        \* two entries with DIFFERENT values, in both supply orders (an order-dependent fold over the entries shows)
+                        \cup {[t |-> "map", v |-> << [k |-> <<"a">>, v |-> Base(ty.e)], [k |-> <<"b">>, v |-> Other(ty.e)] >>],
+                              [t |-> "map", v |-> << [k |-> <<"b">>, v |-> Other(ty.e)], [k |-> <<"a">>, v |-> Base(ty.e)] >>]}
                         \cup {[t |-> "map", v |-> << [k |-> s, v |-> Base(ty.e)] >>] : s \in TextPool}
                         \cup {[t |-> "map", v |-> << [k |-> <<"alnum">>, v |-> x] >>] : x \in Vals(ty.e)}
     [] ty.k = "ref"  ->
